@@ -391,6 +391,14 @@ def core_sequences(cfgname):
         seqs.append(pw + ["NICK taken", ulast, "NICK gate2"])
         seqs.append(pw + [ulast, "NICK taken", "NICK taken", "NICK gate2"])
         seqs.append(pw + ["CAP LS 302", "NICK gate1", "@rival", ulast, "CAP END", "NICK gate2"])
+    # the connection gives up with QUIT (one of the six commands it may use): whoever owns the nickname it once claimed
+    # is not concerned
+    for pre in ([], ["PASS wrong"], ["CAP LS 302"]):
+        seqs.append(base + pre + ["NICK gate1", "@rival", "QUIT"])
+        seqs.append(base + pre + ["NICK gate1", "@rival", "USER plain 0 * :P", "QUIT"])
+        seqs.append(base + pre + ["NICK taken", "QUIT"])
+        seqs.append(base + pre + ["USER plain 0 * :P", "NICK taken", "QUIT :bye"])
+        seqs.append(base + pre + ["NICK gate1", "@rival", "QUIT :bye bye", "PRIVMSG obs :after quit"])
     # ... and the retry names another user: a password that was right for the first USER (checked, then refused with
     # the late 433) is not thereby right for the second one
     if users:
